@@ -42,6 +42,9 @@ def cases(draw, tier):
         record = draw(gen_records.scenario_records(
             max_events=14, min_events=6, allow_gaps=draw(st.booleans())))
     record['grid'] = draw(st.sampled_from(GRIDS))
+    record['regrid'] = draw(st.sampled_from([None, None, '0.5', '2.0', '1.0']))
+    if record['regrid'] == record['grid']:
+        record['regrid'] = None
     return record
 
 
@@ -76,6 +79,30 @@ def check(case):
             done.append(which)
         if not done:
             raise Reject('both main bodies ambiguous')
+        if case.get('regrid'):
+            # set-zeta-grid a second time (refused today): the curves must
+            # belong to whatever grid the file then declares
+            try:
+                wf.zeta_grid(case['regrid'])
+            except Exception:  # pylint: disable=broad-except
+                labels.add('regrid-refused')
+            else:
+                labels.add('regrid-accepted')
+            connection = wf.connect()
+            try:
+                (h_now,) = connection.execute(
+                    'SELECT grid_interval_mm FROM zeta_grid').fetchone()
+            finally:
+                connection.close()
+            if h_now != h:
+                # the grid changed under the curves: recompute what the
+                # intervals' own data say on the new grid
+                h = h_now
+                for which, series in (('rise', rises), ('recession', recs)):
+                    table, ambiguous = model_master.crossing_table(series, h)
+                    members, levels, ok = model_master.main_body(table)
+                    plans[which] = (series, table, ambiguous, members,
+                                    levels, ok)
         connection = wf.connect()
         try:
             for which in done:
